@@ -18,7 +18,7 @@ RULE = ('statements generated from a grammar (reads inside arithmetic, every com
         'a second thread must be able to take the lock of every thread-safe attribute without blocking. Leaks are keyed by the syntactic '
         'class of the statement. distinct_nontrivial = distinct AST shapes (ast.dump of the statement with constants abstracted)')
 CASES = {'quick': 400, 'thorough': 20000}
-BUDGET = {'quick': 40, 'thorough': 900}
+BUDGET = {'quick': 40, 'thorough': 300}
 REQUIRE = {'statements': 4000, 'probes': 8000, 'plain_reads_ok': 100, 'self_augassign_ok': 100}
 ASSUME = ['one generated statement per function; the probe reads the descriptor\'s lock object (falls back to a timed read when the attribute layout changes)']
 
